@@ -13,7 +13,8 @@ TARGETS = ["fchk", "molden", "molekel", "wfn", "wfx"]
 SHELL_ORDERS = ["by_atom", "shuffled", "skipped_centres"]
 CONTRACTIONS = ["segmented", "sp", "generalized"]
 CONV_CLASSES = ["native", "horton2", "cca", "other_table", "random"]
-SPIN_KINDS = ["restricted", "rohf", "unrestricted", "aminusb", "fractional"]
+# "aminusb_zero": spin-unpolarised open shell (integer occupations incl. singly occupied orbitals, occs_aminusb explicitly zero)
+SPIN_KINDS = ["restricted", "rohf", "unrestricted", "aminusb", "fractional", "aminusb_zero"]
 
 
 def allowed_shell_types(target, rng=None, beyond=False):
@@ -178,6 +179,15 @@ def make(rng, target, lmax=None, shell_order=None, contraction=None, conv_class=
             occs = np.zeros(norb)
             occs[:nd] = 2.0
             occs[nd:nd + ns] = 1.0
+        elif spin == "aminusb_zero":
+            nd = int(rng.integers(0, norb))
+            ns = int(rng.integers(1, norb - nd + 1))
+            ns += (ns % 2) if nd + ns + (ns % 2) <= norb else -(ns % 2)  # even number of singly occupied orbitals when possible
+            ns = max(ns, 1)
+            occs = np.zeros(norb)
+            occs[:nd] = 2.0
+            occs[nd:nd + ns] = 1.0
+            aminusb = np.zeros(norb)
         elif spin == "fractional":
             occs = _integer_total(rng, np.sort(rng.uniform(0.0, 2.0, size=norb))[::-1].copy())
         else:  # aminusb
